@@ -25,7 +25,7 @@ ASSUMPTIONS = ["no trailing-slash spellings, no symlinks, no '//' at the very st
 WDS = ["", "sub", "sub/deep", "other"]
 
 
-QUICK_BUDGET = {"cases": 8000, "deadline_s": 170, "case_timeout_s": 60, "floors": {"lib_graphs": 7558, "cli_info": 280, "cli_info_pretty": 280, "edges_checked": 40000}}
+QUICK_BUDGET = {"cases": 8000, "deadline_s": 170, "case_timeout_s": 60, "floors": {"lib_graphs": 7558, "cli_info": 280, "cli_info_pretty": 280, "edges_checked": 40000, "cli_from_subdir": 20, "cli_through_symlink": 70}}
 THOROUGH_FACTOR = 20  # thorough = the same workload with 20x the cases (floors scale along)
 
 
@@ -269,12 +269,30 @@ def run_cli(case, proj, variant, deps, inv, res):
             tl.append(dict(t, route="raw", raw="_t = gwf.target(%r, inputs=%s, outputs=%s)\n_t.working_dir = %r" % (t["name"], t["ins_expr"], t["outs_expr"], t.get("wd_spelled") or t["wd"])))
         elif t["wd_rel"]:
             tl.append(dict(t, route="template", wd_arg=t.get("wd_spelled") or t["wd"]))
+        elif (len(t["name"]) + len(variant) + len(t["ins_expr"])) % 3 == 0:
+            tl.append(dict(t, route="template"))  # a template without a working directory of its own inherits the workflow's
         else:
             tl.append(dict(t, route="target"))
     proj.write_workflow(gen.render_workflow(tl))
     proj.write_config({"backend": "slurm"})
     env = cli.env_for(proj.simdir, ("slurm",))
-    r = cli.gwf(proj.root, ["info"], env)
+    # where gwf is started from: the project root, a nested sub-directory (only when no target carries a working
+    # directory that is relative to the process directory), or the project root reached through a symbolic link
+    # with the shell's logical $PWD
+    how = case["shape_seed"] % 4
+    start, extra_env = proj.root, {}
+    if how in (1, 3) and not any(t.get("wd_spelled") for t in variant):
+        start = os.path.join(proj.root, "started", "deeper")
+        os.makedirs(start, exist_ok=True)
+        res.mon("cli_from_subdir")
+    elif how == 2:
+        link = os.path.join(proj.base, "link-to-proj")
+        os.symlink(proj.root, link)
+        start, extra_env = link, {"PWD": link}
+        res.mon("cli_through_symlink")
+    env.update(extra_env)
+    proj_root_for_cli = start
+    r = cli.gwf(proj_root_for_cli, ["info"], env)
     if r.rc != 0:
         res.violation(mech_for(case), "gwf info failed on a valid workflow", **cli.crash_witness(r), workflow=gen.render_workflow(tl))
         return
@@ -290,7 +308,7 @@ def run_cli(case, proj, variant, deps, inv, res):
         res.violation(mech_for(case), "gwf info relations differ: deps gwf=%s oracle=%s; dependents gwf=%s oracle=%s" % (fmt(gd), fmt(deps), fmt(gi), fmt(inv)), workflow=gen.render_workflow(tl))
     # selection: `gwf info <name>` must restrict to that target with the same relations
     name = sorted(deps)[0]
-    r2 = cli.gwf(proj.root, ["info", name], env)
+    r2 = cli.gwf(proj_root_for_cli, ["info", name], env)
     if r2.rc == 0:
         try:
             i2 = json.loads(r2.out)
@@ -301,7 +319,7 @@ def run_cli(case, proj, variant, deps, inv, res):
     else:
         res.violation(mech_for(case), "gwf info NAME failed", **cli.crash_witness(r2))
     # the human-readable format prints the dependents of every target: same relation
-    r3 = cli.gwf(proj.root, ["info", "--format", "pretty"], env)
+    r3 = cli.gwf(proj_root_for_cli, ["info", "--format", "pretty"], env)
     res.mon("cli_info_pretty")
     if r3.rc != 0:
         res.violation("info-pretty-fails" if mech_for(case) == "graph-mismatch" else mech_for(case), "gwf info --format pretty failed on a valid workflow", **cli.crash_witness(r3), workflow=gen.render_workflow(tl))
